@@ -31,7 +31,7 @@ def main():
             for e in evs:
                 ty = re.sub(r"\?%s\b" % e, e, ty)
             ty = "forall %s,\n  %s" % (" ".join("(%s : Type)" % e for e in evs), ty)
-            print("Theorem %s_%s :\n  %s.\nProof. intros %s. exact (@%s %s). Qed.\n" % (pid, n, ty, " ".join(evs), n, " ".join(evs)))
+            print("Theorem %s_%s :\n  %s.\nProof. intros %s. exact (@%s %s). Qed.\n" % (pid, n.replace(".", "_"), ty, " ".join(evs), n, " ".join(evs)))
         else:
-            print("Theorem %s_%s :\n  %s.\nProof. exact %s. Qed.\n" % (pid, n, ty, n))
+            print("Theorem %s_%s :\n  %s.\nProof. exact %s. Qed.\n" % (pid, n.replace(".", "_"), ty, n))
 main()
